@@ -30,9 +30,9 @@ def save(sid, m):
 
 
 def demo_info(sid):
-    first = open(os.path.join(SEEDED, sid, "demo.rs")).readline()
-    m = re.search(r"[Pp][Ll][Aa][Cc][Ee] [Aa][Tt]:\s*(\S+)", first)
-    c = re.search(r"[Rr][Uu][Nn]:\s*(cargo .*?)\s*$", first)
+    head = "".join(open(os.path.join(SEEDED, sid, "demo.rs")).readlines()[:3])
+    m = re.search(r"[Pp][Ll][Aa][Cc][Ee] [Aa][Tt]:\s*(\S+)", head)
+    c = re.search(r"(cargo test [^\n]*?)\s*$", head, flags=re.M)
     return m.group(1), c.group(1)
 
 
